@@ -59,6 +59,11 @@ def ff_design(rng, name):
     for j in range(m):
       blocks.append(['if s.en:', f'  s.bank[{j}] <<= s.i0 + {j}'] if rng.random() < 0.8 else ['if s.i0[0]:', f'  s.bank[{j}] <<= s.bank[{(j+1) % m}]', 'elif s.en:', f'  s.bank[{j}] <<= 1'])
     feats.add('many-branchy-ff')
+  # a register that is an InPort of a child component, written with <<= by the parent's update_ff block
+  if rng.random() < 0.5:
+    L += [f's.ci = Inc( {w} )', f's.o5 = OutPort( {w} )', 'connect( s.o5, s.ci.out )']
+    blocks.append([f's.ci.in_ <<= s.r0 ^ {src0}'] if rng.random() < 0.6 else ['if s.en:', f'  s.ci.in_ <<= s.r1'])
+    feats.add('ff-drives-child-inport')
   # merge some blocks
   if rng.random() < 0.4 and len(blocks) > 2:
     a = blocks.pop(); blocks[0] = blocks[0] + a; feats.add('multi-reg-block')
